@@ -226,7 +226,18 @@ impl Run {
                         body.push(b':');
                         body.resize(max_message_len().saturating_sub(d), b'x');
                     }
-                    let f = Frame::Message(MessagePayload { headers: None, message: Bytes::from(body) });
+                    // the header map is part of the frame: absent, present and empty, or present with an entry --
+                    // "byte-for-byte unchanged" holds for each (big messages keep the shape their size was computed for)
+                    let headers = if st.which.starts_with("big:") {
+                        None
+                    } else {
+                        match n % 5 {
+                            3 => Some(HashMap::new()),
+                            4 => Some(HashMap::from([("x-trace".to_string(), format!("{:x}", salt.wrapping_add(n)))])),
+                            _ => None,
+                        }
+                    };
+                    let f = Frame::Message(MessagePayload { headers, message: Bytes::from(body) });
                     self.registry.lock().unwrap().insert((st.id, n), f.clone());
                     p.h.st().queue.push_back(f);
                     let fired = p.h.fire();
